@@ -611,3 +611,40 @@ Proof.
     apply negb_true_iff in E1. tauto.
   - simpl. discriminate.
 Qed.
+
+(* ------------------------------------------------------------------ the command line's dispatch (C17, F-C17a) *)
+(* with the matching enabled, views of different space dimension whose extended versions are equal pass — whatever the
+   reordering option says *)
+Theorem cli_mesh_fixed_matches_dimensions eq dr bs v :
+  (let '(a0, b0) := lv_as_is v in (space_dim a0 =? space_dim b0) = false) ->
+  (let '(a1, b1) := lv_extended v in eq a1 b1 = true) ->
+  cli_mesh_fixed eq false dr bs v = true.
+Proof.
+  unfold cli_mesh_fixed, ladder. destruct (lv_as_is v) as [a0 b0]. destruct (lv_extended v) as [a1 b1]. intros Hd He.
+  destruct (eq a0 b0); [reflexivity|]. rewrite Hd, He. reflexivity.
+Qed.
+
+(* with the matching disabled nothing but the as-is views (or, with reordering, the sorted ones) can make it pass *)
+Theorem cli_mesh_fixed_disabled eq bs v :
+  cli_mesh_fixed eq true true bs v = (let '(a0, b0) := lv_as_is v in eq a0 b0).
+Proof.
+  unfold cli_mesh_fixed, ladder. destruct (lv_as_is v) as [a0 b0]. destruct (lv_extended v) as [a1 b1].
+  destruct (eq a0 b0); [reflexivity|]. rewrite andb_false_r. reflexivity.
+Qed.
+
+(* the fixed dispatch agrees with the pinned one whenever reordering is enabled *)
+Theorem cli_mesh_pinned_fixed_agree eq dd bs v : cli_mesh_pinned eq dd false bs v = cli_mesh_fixed eq dd false bs v.
+Proof. reflexivity. Qed.
+
+(* the pinned dispatch fails a 2-d mesh against its zero-padded twin under --disable-mesh-reordering *)
+Theorem cli_mesh_pinned_refuted :
+  exists v, (space_dim (fst (lv_as_is v)) =? space_dim (snd (lv_as_is v))) = false /\
+            mesh_equal 0%Q 0%Q (fst (lv_extended v)) (snd (lv_extended v)) = true /\
+            cli_mesh_pinned (mesh_equal 0%Q 0%Q) false true false v = false /\
+            cli_mesh_fixed (mesh_equal 0%Q 0%Q) false true false v = true.
+Proof.
+  set (A := {| pts := [[1#1; 2#1]; [3#1; 4#1]]; cells := [(3, [[0;1]])] |}).
+  set (B := {| pts := [[1#1; 2#1; 0#1]; [3#1; 4#1; 0#1]]; cells := [(3, [[0;1]])] |}).
+  exists {| lv_as_is := (A, B); lv_extended := (extend_points 3 A, B); lv_sorted_points := (A, B); lv_sorted_cells := (A, B) |}.
+  vm_compute. repeat split; reflexivity.
+Qed.
